@@ -12,7 +12,10 @@ SearchOutcome(ts, doc, m) ==
   ELSE IF c.open THEN Open
   ELSE Eval(c.n, doc, doc, EmptyEnv)
 
-Admissible(ts, doc) == { SearchOutcome(ts, doc, m) : m \in Modes(ts) }
+\* the distinct compilations over all admissible readings (usually one)
+Compilations(ts) == { Compile(ts, m) : m \in Modes(ts) }
+OutcomeOf(c, doc) == IF ~c.ok THEN ErrS(c.cs) ELSE IF c.open THEN Open ELSE Eval(c.n, doc, doc, EmptyEnv)
+Admissible(ts, doc) == { OutcomeOf(c, doc) : c \in Compilations(ts) }
 
 \* from the text (code points, -1 = invalid UTF-8)
 AdmissibleText(s, doc) ==
